@@ -145,7 +145,7 @@ GEN_DEFAULTS = {
     "PredDefault": "FALSE", "DesyncInterval": "0", "Fps": "60", "Timeout": "2000", "Notify": "500",
     "Values": "GenValues", "MaxFrame": "8", "LinkCap": "2", "DupBudget": "1", "ClockSteps": "NoClock",
     "MaxClock": "1000000", "PreSynced": "TRUE", "InboxCap": "2", "Mortal": "{}", "MaxBehind": "10", "Catchup": "1", "EagerNet": "FALSE", "DelayValues": "{}", "VaryAll": "TRUE",
-    "Granular": "TRUE",
+    "Granular": "TRUE", "WaitMs": "0",
     "MaxSteps": "80",
 }
 GEN_SUBST = {"Peers", "Values", "ClockSteps"}
@@ -220,6 +220,7 @@ def scenario_of(consts):
         "timeout": int(consts["Timeout"]), "notify": int(consts["Notify"]),
         "max_behind": int(consts.get("MaxBehind", 10)), "catchup": int(consts.get("Catchup", 1)),
         "max_delay": 8, "peers": peers,
+        "waitapi": int(consts.get("WaitMs", 0)) > 0, "wait_ms": int(consts.get("WaitMs", 0)),
     }
 
 
@@ -358,7 +359,11 @@ def cex_schedule(tracep, consts):
             continue
         a = ln["a"]
         if a == "tick":
-            steps.append({"a": "tick", "p": ln["p"], "in": ln["in"]})
+            st = {"a": "tick", "p": ln["p"], "in": ln["in"]}
+            if "wait" in ln:
+                st["wait"] = ln["wait"]
+                st["arr"] = ln.get("arr", [])
+            steps.append(st)
         elif a in ("poll", "ev", "kill"):
             steps.append({"a": a, "p": ln["p"]})
         elif a in ("dlv", "drop", "dup"):
